@@ -327,7 +327,7 @@ pub struct SoupToken {
 }
 
 const SOUP_TEXTS: &[&str] = &[
-    "a", "b1", "_", "1", "12", ".5", "..", ".", "-", "--", "[", "]", "[[", "]]", "=", "==", ">", ">=",
+    "a", "b1", "_", "1", "12", ".5", "5.", "12.", "e", "5.", "..", ".", "-", "--", "[", "]", "[[", "]]", "=", "==", ">", ">=",
     "(", ")", "{", "}", ",", ";", "x\ny", "\"s\"", "'t'", "é", "日本", "[[l\nm]]", "...", "0x1F",
     "", "z9", "A", "Z_", "9", "#", "::", "<", "\n", "a\r\nb",
 ];
